@@ -46,6 +46,7 @@ class HistoryFamily:
     impl_script = 'impl_history.py'
     impl_timeout = 1800
     p_multi = 0.5
+    search_factor = 3          # (histories are slow to run: the search for a failing input after a broken proof / tie uses 3x the quick budget)
 
     def budget(self, tier):
         return {'quick': 400, 'thorough': 5000, 'search': 1}.get(tier, 400)
@@ -242,7 +243,19 @@ class HistoryFamily:
         """the specification speaks of the Cartesian product of NON-EMPTY domains (C02): with an empty domain the product is empty
         although a query may never need to enumerate that variable (a disjunct it is absent from) - such histories are compared
         with the model only"""
-        return all(len(d) > 0 for _, d in case.get('doms', []))
+        if all(len(d) > 0 for _, d in case.get('doms', [])):
+            return True
+        # (a query that SELECTS every one of its variables has to enumerate every one of them: no rows over an empty domain, as specified)
+        from qcase import term_keys
+
+        def all_selected(q):
+            sel = set()
+            for t in q['sel']:
+                if t[0] != 'var':
+                    return False
+                sel.add(t[1])
+            return sel >= {b[1] for b in q['binders'] if b[0] == 'var'}
+        return all(all_selected(q) for q in case.get('pool', []))
 
     # ------------------------------------------------------------------------------------------ comparison
     def canon(self, case, io):
